@@ -44,3 +44,15 @@ chk("C05",
     "Stage outcomes (what the linear solve produces) are inputs of the model; finiteness of supplied elements is checked by the "
     "search only.",
     "Lean 4 proof over a state-machine model of the Newton driver; scripted differential correspondence; history search", "8/C05")
+chk("C04",
+    "Lean theorems for every node/branch count, topology and flag pattern: the executable supply search marks a node iff it is "
+    "reachable from an in-service pressure-fixing node along in-service branches with directed branches only forwards "
+    "(frontier expansion = reflexive-transitive reachability, by a cardinality argument); branch rule (ordinary: in service and "
+    "from-node supplied; flow/return connector: both ends); calculated branches have two supplied ends; no in-service slack => "
+    "nothing supplied; the supplied set depends only on the supply relation; cumsum renumbering is order preserving, injective "
+    "and in range. Model tied to check_connectivity (scipy BFS included) over all 2^10 flag patterns of 3 topologies + random "
+    "graphs. Oracle: NaN pattern of every res table vs an independent user-level reachability, results vs the pruned net, "
+    "no supply => PipeflowNotConverged.",
+    "reduce_pit / copy-back index arithmetic is covered end-to-end by the pruned-net oracle, not proved.",
+    "Lean 4 proof (BFS = reachability, renumbering) over an executable model; exhaustive-pattern correspondence; pruned-net search",
+    "8/C04")
